@@ -246,6 +246,9 @@ func (e *Engine) mapLiteralFacts(st *State, g *ssa.Global, mm *ssa.MakeMap, v Va
 	}
 	seen := map[string]bool{}
 	var vals []string
+	type entry struct{ k, v string }
+	var entries []entry
+	keysConst := true
 	for _, ref := range *mm.Referrers() {
 		mu, ok := ref.(*ssa.MapUpdate)
 		if !ok {
@@ -262,6 +265,41 @@ func (e *Engine) mapLiteralFacts(st *State, g *ssa.Global, mm *ssa.MakeMap, v Va
 		if !seen[cv.T] {
 			seen[cv.T] = true
 			vals = append(vals, cv.T)
+		}
+		if kc, ok := mu.Key.(*ssa.Const); ok {
+			kv := e.constVal(st, kc)
+			if len(kv.comps()) == 1 {
+				entries = append(entries, entry{e.mapKeyTerm(mt, kv), cv.T})
+				continue
+			}
+		}
+		keysConst = false
+	}
+	if keysConst && len(entries) <= 400 {
+		// every entry of the literal: the key is present and maps to its constant (a key written
+		// twice keeps the last value; composite literals do not repeat keys)
+		_, vk0, ks0 := e.mapKeys(mt)
+		varr0 := e.heapGet(st, vk0+":0", "(Array Int (Array "+ks0+" "+leaves(mt.Elem())[0].Sort+"))")
+		dupl := map[string]bool{}
+		for _, en := range entries {
+			if dupl[en.k] {
+				continue
+			}
+			dupl[en.k] = true
+			st.assume(e.mapHas(st, mt, v.T, en.k))
+			st.assume(eq(sel(sel(varr0, v.T), en.k), en.v))
+		}
+		// ... and nothing else is present
+		if len(entries) > 0 {
+			_, _, ks1 := e.mapKeys(mt)
+			e.nfresh++
+			kq := sym(fmt.Sprintf("q.mk!%d", e.nfresh))
+			var alts []string
+			for k := range dupl {
+				alts = append(alts, eq(kq, k))
+			}
+			sortStrings(alts)
+			st.assume("(forall ((" + kq + " " + ks1 + ")) (=> " + e.mapHas(st, mt, v.T, kq) + " " + or(alts...) + "))")
 		}
 	}
 	if len(vals) == 0 || len(vals) > 400 {
